@@ -19,8 +19,10 @@ Events that refute (each has its own oracle clause):
   extensions  the relay client's extension table after each EHLO/LHLO != the table the server advertised
   reply       the result / error Relay.attempt reports does not carry the code the edge gave
   unmixed     3 messages over one connection: every message arrives as itself, results belong to their message
-Conditional classes (judged only as the statement allows): non-ASCII address without SMTPUTF8 => refused or
-intact, never altered; 8-bit data without 8BITMIME => refused permanently, or intact, or converted so that it
+Conditional classes (judged only as the statement allows): non-ASCII recipient without SMTPUTF8 => kept back by
+the relay (not offered to the server, not reported delivered) while the ASCII recipients of the same message
+arrive intact and are reported delivered, or the whole message is refused; non-ASCII sender without SMTPUTF8 =>
+refused or intact; nothing arrives altered; 8-bit data without 8BITMIME => refused permanently, or intact, or converted so that it
 decodes to the same text (C20's clause).
 """
 import re
@@ -89,9 +91,13 @@ ASSUMPTIONS = ['LMTP: the library has no LMTP-receiving edge; the LMTP leg is ju
                '7-bit clause: "same text" is compared as the same sequence of lines (CRLF / LF / CR all count as a '
                'line end), because the conversion re-parses the message with universal newlines; exact line ends '
                'after conversion are C20\'s known finding encode-7bit/base64/line-ends-differ, not re-reported here',
-               'a non-ASCII address offered to a server that does not advertise SMTPUTF8, and 8-bit data offered to '
-               'one that does not advertise 8BITMIME, may be refused in any way (error result or exception); only '
-               '"arrives altered" and "reported delivered but not received" refute',
+               'SMTPUTF8 not in effect (dropped at the SMTP edge, absent from the LMTP server\'s list, HELO fall-back): '
+               'a non-ASCII recipient must not reach the server and must not be reported delivered (a per-recipient '
+               'failure is the expected shape, its permanent/transient class is only counted); refusing the whole '
+               'message is acceptable too; if the message is delivered, its ASCII recipients must arrive in order '
+               'with identical content and be reported delivered. A non-ASCII sender, and 8-bit data without '
+               '8BITMIME, may be refused in any way; only "arrives altered" and "reported delivered but not '
+               'received" refute there',
                'SIZE with a small limit: messages within 60 bytes of the limit are judged on consistency only',
                'configuration class: AUTH PLAIN/LOGIN is offered only together with TLS (the library\'s server refuses '
                'them 504 on a clear channel by design; CRAM-MD5 is used in clear) and relay credentials are not '
@@ -574,14 +580,26 @@ def add_script(rnd, transport, cfg, msg):
         msg['script'] = ['data', rnd.choice(['554', '451'])]
 
 
+def advertised(transport, cfg):
+    """Extension names in effect for the transaction (SMTP edge config / LMTP downstream exts; HELO = none)."""
+    if transport == 'lmtp':
+        return set(x.split()[0] for x in cfg['exts'])
+    return set() if cfg['helo'] else set(DEFAULT_EXTS) - set(cfg['drop'])
+
+
+def withheld_rcpts(transport, cfg, msg):
+    """Recipients the relay must keep back: non-ASCII addresses while SMTPUTF8 is not in effect.  They must not
+    reach the server and must not be reported delivered (the relay fails them itself, permanently)."""
+    if transport == 'http' or 'SMTPUTF8' in advertised(transport, cfg):
+        return []
+    return [r for r in dict.fromkeys(msg['rcpts']) if not is_ascii(r)]
+
+
 def may_refuse(transport, cfg, msg):
     """Is this message in a conditional class for this configuration?  (utf8-without-SMTPUTF8, 8bit-without-8BITMIME)"""
     if transport == 'http':
         return False
-    if transport == 'lmtp':
-        adv = set(x.split()[0] for x in cfg['exts'])
-    else:
-        adv = set() if cfg['helo'] else set(DEFAULT_EXTS) - set(cfg['drop'])
+    adv = advertised(transport, cfg)
     utf8 = not all(is_ascii(a) for a in [msg['sender']] + msg['rcpts'])
     eight = any(c > 127 for c in msg['data'])
     return (utf8 and 'SMTPUTF8' not in adv) or (eight and '8BITMIME' not in adv)
@@ -1187,6 +1205,23 @@ class Judge(object):
                     % (t, len(orig), len(content), '+'.join(bclass)),
                     self.wit(msg, original=orig, received=content, body_class=bclass))
 
+    # ---- non-ASCII recipients while SMTPUTF8 is not in effect: kept back by the relay, never reported delivered
+    def withheld(self, msg, withheld, reported, received_rcpts, o):
+        R, t = self.R, self.t
+        for r in withheld:
+            R.hit('utf8-recipient-without-smtputf8-judged')
+            rep_ = reported.get(r)
+            if rep_ is not None and rep_[0] == 'ok':
+                R.violation('%s/utf8-without-smtputf8/recipient-reported-delivered' % t,
+                            '%s: non-ASCII recipient %r without SMTPUTF8 is reported delivered (%s)' % (t, r, rep_[1]),
+                            self.wit(msg, recipient=r, outcome=describe_outcome(o)))
+            elif rep_ is not None and rep_[0] == 'fail':
+                R.count('utf8-recipient-withheld/%s' % ('permanent' if rep_[2] else 'transient'))
+            if received_rcpts is not None and r in received_rcpts:
+                R.violation('%s/utf8-without-smtputf8/recipient-reached-the-server' % t,
+                            '%s: non-ASCII recipient %r was offered to a server that does not advertise SMTPUTF8'
+                            % (t, r), self.wit(msg, recipient=r, received_recipients=received_rcpts))
+
     # ---- extension tables
     def extensions(self, adverts, views, configured):
         R, t = self.R, self.t
@@ -1356,7 +1391,7 @@ def judge_smtp_http(case, lab, R, runs):
 
         # ---- reply-code clause
         if t == 'smtp' and not concurrent:
-            judge_reply_smtp(J, m, o, recs, reported, distinct)
+            judge_reply_smtp(J, m, o, recs, reported, withheld_rcpts(t, cfg, m))
         elif t == 'http' and not concurrent:
             want = script[1] if script else '250'
             R.hit('reply-code-compared')
@@ -1412,10 +1447,14 @@ def judge_smtp_http(case, lab, R, runs):
         want_rcpts = list(m['rcpts'])
         scripted = [m['rcpts'][i] for i in script[1]] if script and script[0] == 'rcpt' else []
         want_rcpts = [r for r in want_rcpts if r not in scripted]
+        # non-ASCII recipients without SMTPUTF8: the relay keeps them back; the ASCII ones must arrive as usual
+        held = withheld_rcpts(t, cfg, m)
+        J.withheld(m, held, reported, list(e2.recipients), o)
+        want_rcpts = [r for r in want_rcpts if r not in held]
         if t == 'smtp':
             # recipients the edge itself refused without a script (server-level 501 etc.): reported here, the
             # list comparison then uses the addresses the relay reports as accepted
-            bad = [r for r in distinct if reported[r][0] == 'fail' and r not in scripted]
+            bad = [r for r in distinct if reported[r][0] == 'fail' and r not in scripted and r not in held]
             for r in bad:
                 R.hit('valid-hop-refused')
                 R.violation(address_mechanism(t, r, reported[r][1], 'RCPT'),
@@ -1465,9 +1504,12 @@ def judge_smtp_http(case, lab, R, runs):
                         % (lab.ehlo_as + lab.helos,), {'config': case['label']})
 
 
-def judge_reply_smtp(J, m, o, recs, reported, distinct):
-    """The result the relay reports carries the code the edge gave (edge side = recording session)."""
+def judge_reply_smtp(J, m, o, recs, reported, held=()):
+    """The result the relay reports carries the code the edge gave (edge side = recording session).
+    held = recipients the relay keeps back itself (never offered to the edge): not part of this clause."""
     R = J.R
+    m = dict(m, rcpts=[r for r in m['rcpts'] if r not in held])
+    distinct = list(dict.fromkeys(m['rcpts']))
     mail = [r for r in recs if r[1] == 'MAIL']
     rcpt = [r for r in recs if r[1] == 'RCPT']
     data = [r for r in recs if r[1] == 'DATA']
@@ -1480,7 +1522,7 @@ def judge_reply_smtp(J, m, o, recs, reported, distinct):
     msg_level = None
     if mail[-1][2][0] != '2':
         msg_level = mail[-1][2]
-    elif len(rcpt) == len(m['rcpts']) and all(r[2][0] != '2' for r in rcpt):
+    elif rcpt and len(rcpt) == len(m['rcpts']) and all(r[2][0] != '2' for r in rcpt):
         msg_level = rcpt[0][2]
     elif data and data[-1][2][0] != '3':
         msg_level = data[-1][2]
@@ -1593,6 +1635,9 @@ def judge_lmtp(case, lab, R, runs):
         for l in rl:
             p = parse_path(l)
             rc.append(p[0].decode('utf-8', 'replace') if p else None)
+        # non-ASCII recipients without SMTPUTF8: kept back by the relay, never offered to the server
+        held = withheld_rcpts(t, cfg, m)
+        J.withheld(m, held, reported, rc, o)
         # reply clause: per-recipient results vs what the server answered
         want_codes = {}
         for i, r in enumerate(m['rcpts']):
@@ -1606,6 +1651,8 @@ def judge_lmtp(case, lab, R, runs):
         R.hit('reply-code-compared')
         rejected = False
         for r in distinct:
+            if r in held:
+                continue
             cs = want_codes[r]
             bad = [c for c in cs if c[0] != '2']
             want = bad[0] if bad else '250'
@@ -1622,7 +1669,7 @@ def judge_lmtp(case, lab, R, runs):
                 break
         if rejected:
             R.hit('per-recipient-rejection-judged')
-        J.compare(m, orig, sender, rc, tx['content'], list(m['rcpts']), cond)
+        J.compare(m, orig, sender, rc, tx['content'], [r for r in m['rcpts'] if r not in held], cond)
     if cfg['reuse'] and lab.conns == 1:
         R.hit('reuse-one-connection')
     J.extensions(None, list(lab.views), lab.expected_views())
